@@ -280,8 +280,20 @@ def other_block(case):
             "    group2 {", "      atomNumbers %d" % f[1], "    }", "  }", "}"]
 
 
-def config_text(case, with_other=True):
+def bias_block(case):
+    b = case["bias"]
+    tsf = ["  timeStepFactor %d" % case["tsf"]] if case.get("tsf") else []
+    if b["type"] == "linear":
+        return ["linear {", "  name b", "  colvars v", "  centers 0.0", "  forceConstant %r" % b["k"]] + tsf + ["}"]
+    if b["type"] == "harmonic":
+        return ["harmonic {", "  name b", "  colvars v", "  centers %r" % b["c"], "  forceConstant %r" % b["k"]] + tsf + ["}"]
+    return []
+
+
+def config_text(case, with_other=True, with_bias=True):
     L = ["colvar {", "  name v", "  outputTotalForce on", "  outputAppliedForce on"]
+    if case.get("tsf") or case.get("offmode") == "define":
+        L += ["  lowerBoundary -1024", "  upperBoundary 1024", "  width 1"]
     if case["sub"]:
         L.append("  subtractAppliedForce on")
     for c in case["comps"]:
@@ -289,11 +301,11 @@ def config_text(case, with_other=True):
     L.append("}")
     if case.get("foreign") and with_other:
         L += other_block(case)
-    b = case["bias"]
-    if b["type"] == "linear":
-        L += ["linear {", "  name b", "  colvars v", "  centers 0.0", "  forceConstant %r" % b["k"], "}"]
-    elif b["type"] == "harmonic":
-        L += ["harmonic {", "  name b", "  colvars v", "  centers %r" % b["c"], "  forceConstant %r" % b["k"], "}"]
+    if case.get("tsf") or case.get("offmode") == "define":
+        # a consumer that applies no force keeps the variable computed at the steps at which the bias sleeps / does not exist
+        L += ["histogram {", "  name h", "  colvars v", "}"]
+    if with_bias:
+        L += bias_block(case)
     return L
 
 
@@ -310,12 +322,20 @@ def scenario(case, k):
         for i, p in enumerate(case["steps"][0]["pos"]):
             L.append("pos %d %s %s %s" % (i + 1, hx(p[0]), hx(p[1]), hx(p[2])))
         L += ["step"] * late
-    L += ["config EOF"] + config_text(case, with_other=not late) + ["EOF"] + (["hidej v"] if case["hide"] else []) + ["show tf 1 af 1 energy 0 bias 0"]
-    applying = True
+    mode = case.get("offmode", "toggle")
+    applying = not (mode == "define" and case["steps"][0].get("off"))      # define: the bias may not exist yet
+    L += ["config EOF"] + config_text(case, with_other=not late, with_bias=applying) + ["EOF"] + (["hidej v"] if case["hide"] else []) + ["show tf 1 af 1 energy 0 bias 0"]
     for s in case["steps"]:
-        if bool(s.get("off")) == applying:      # the bias stops / resumes applying its force (the variable stays active)
+        if mode != "tsf" and bool(s.get("off")) == applying:
+            # the bias stops / resumes applying its force while the variable stays active and measured:
+            # toggle = apply_force switched by script; define = the bias is deleted / defined at run time
             applying = not applying
-            L.append("script cv bias b set apply_force %d" % (1 if applying else 0))
+            if mode == "toggle":
+                L.append("script cv bias b set apply_force %d" % (1 if applying else 0))
+            elif applying:
+                L += ["config EOF"] + bias_block(case) + ["EOF"]
+            else:
+                L.append("script cv bias b delete")
         for i, p in enumerate(s["pos"]):
             L.append("pos %d %s %s %s" % (i + 1, hx(p[0]), hx(p[1]), hx(p[2])))
         ef = s["ef"]
@@ -404,14 +424,15 @@ def bias_force(case, value):
     b = case["bias"]
     if b["type"] == "none":
         return 0.0
+    tsf = float(case.get("tsf") or 1)       # impulse: the force of a bias with timeStepFactor n is multiplied by n
     if b["type"] == "linear":
-        return -b["k"]
+        return -b["k"] * tsf
     d = value - b["c"]
     # colvar::dist2_lgrad (after the C18 repair in /repo main): the periodic difference is used only when the variable
     # itself is periodic, i.e. all its components are periodic with the same period (here: dihedrals, coefficients +-1)
     if periodic(case):
         d = d - 360.0 * math.floor(d / 360.0 + 0.5)
-    return -b["k"] * d
+    return -b["k"] * d * tsf
 
 
 # ------------------------------------------------------------------ model case line
@@ -685,7 +706,12 @@ def gen_case(r, idx, typ=None, kinds=None):
             case["bias"] = {"type": "linear", "k": 2.0}
         if not case["same"]:
             case["inc"] = 1
+        case["offmode"] = r.choice(["toggle", "toggle", "tsf", "define"])
         pat = r.choice([[0, 1, 0, 0, 1, 1, 0], [0, 0, 1, 0, 1, 0], [1, 0, 0, 1, 1, 0]])
+        if case["offmode"] == "tsf":
+            case["tsf"] = 2
+            case.pop("late", None)
+            pat = [0, 1, 0, 1, 0, 1, 0]            # awake at the even steps of the run
         steps = [{"pos": P[i % 4], "ef": (zero if r.random() < 0.5 else field()), "off": bool(o)} for i, o in enumerate(pat)]
     else:
         steps = [{"pos": P[i % 4], "ef": field() if r.random() < 0.7 else zero} for i in range(r.randint(2, 5))]
@@ -1085,7 +1111,8 @@ def check(run):
     for kind in ("distance", "angle", "gyration"):        # applied force zero between non-zero ones, subtract on and off
         for sub in (True, False):
             c = None
-            while c is None or c["same"]:
+            want = {"distance": "toggle", "angle": "tsf", "gyration": "define"}[kind]
+            while c is None or c["same"] or c.get("offmode") != want:
                 c = gen_case(r, 0, "OFF", [kind])
             c["sub"] = sub
             first.append(c)
